@@ -1,7 +1,7 @@
 /-
   C04 — `-j` and pool depths are never exceeded.
 -/
-import N2V.Lemmas.SchedBuild
+import N2V.Lemmas.SchedExamples
 namespace N2V.C04
 open N2V N2V.Sched
 
@@ -104,5 +104,36 @@ theorem start_keeps_limits {g : Graph} {par : Nat} {s s1 : S} {id : Nat} {pools 
     (hs : set g { s with pools := pools } id .running = .ok s1) :
     Inv g par { s1 with running := s1.running + 1, trace := Ev.start id :: s1.trace } :=
   start_inv inv hlt hpop hs
+
+/-- **C04 at every instant of every invocation**: in every state any `run::build` passes through
+    (every prefix of its trace, whatever the outcome), at most `-j` builds are `Running`, and for
+    every pool — the declared ones, `console` (depth 1) and the default pool — of depth d > 0 at
+    most d of the builds assigned to it (`withinLimits`, TraceSpec.lean). -/
+theorem limits_at_every_instant {E : Type} {g : Graph} (gok : GraphOK g) (a : Run.Args) (c : Choices E)
+    (e : E) (tr' : List Ev) (hs : tr' <:+ (Run.build g a c e).1.trace) :
+    withinLimits g a.par (Run.shapeOf a) (stOf tr') = true :=
+  limits_always (okTrace_suffix (Run.build_tinv gok a c e).ok hs)
+
+theorem limits_at_every_instant_reloaded {E : Type} {g : Graph} (gok : GraphOK g) (a : Run.Args)
+    (c : Choices E) (e : E) (n0 : Nat) (tr' : List Ev) (hs : tr' <:+ (Run.buildReloaded g a c e n0).1.trace) :
+    withinLimits g a.par (Run.shapeOf a) (stOf tr') = true :=
+  limits_always (okTrace_suffix (Run.buildReloaded_tinv gok a c e n0).ok hs)
+
+/-- What `withinLimits` says, spelled out. -/
+theorem withinLimits_spelled (g : Graph) (par : Nat) (shape : List (Bytes × Nat)) (st : Nat → St)
+    (h : withinLimits g par shape st = true) :
+    cnt g.nBuilds (fun x => st x == .running) ≤ par ∧
+    ∀ name depth, (name, depth) ∈ shape → depth > 0 →
+      cnt g.nBuilds (fun x => st x == .running && (g.build x).pool == name) ≤ depth := by
+  simp only [withinLimits, Bool.and_eq_true, decide_eq_true_eq, List.all_eq_true, Bool.or_eq_true, beq_iff_eq] at h
+  refine ⟨h.1, ?_⟩
+  intro n d hm hd
+  rcases h.2 (n, d) hm with h0 | hle
+  · simp at h0; omega
+  · exact hle
+
+/-- The pools every invocation has: the default pool (depth 0 = bounded by `-j` only) and
+    `console` with depth 1, unless redeclared. -/
+example : Run.shapeOf Ex.a0 = [([], 0), ([99, 111, 110, 115, 111, 108, 101], 1)] := by decide
 
 end N2V.C04
